@@ -767,6 +767,65 @@ fn run_deep(ctx: &RunCtx, tier: Tier) -> RunOut {
     }
 }
 
+// ---------------------------------------------------------------------------------------------
+// (f) multi-byte characters at every byte alignment: documents (accepted and rejected ones) whose
+// string values are dense runs of 2-, 3- and 4-byte UTF-8 characters, shifted by 0..3 leading
+// spaces, so that for every byte offset K up to the document's length some case has a character
+// straddling K (any code that cuts the body at a fixed offset for a message would panic there).
+
+const MB_CHARS: [&str; 3] = ["\u{e9}", "\u{20ac}", "\u{1d11e}"];
+
+fn run_multibyte(ctx: &RunCtx, tier: Tier) -> RunOut {
+    let ch = MB_CHARS[choose("char_width", 3)];
+    let pad = choose("leading_spaces", 4);
+    let xssi = choose("xssi_prefix", 2) == 1;
+    let reps = [40usize, 200, tier.pick(700, 3000)][choose("run_length", 3)];
+    let shape = choose("shape", 8);
+    let x: String = ch.repeat(reps);
+    // 0 accepted; 1.. rejected for different reasons (and at different depths of the parser)
+    let (body, accept): (String, bool) = match shape {
+        0 => (format!(r#"{{"response":{{"protocol":"3.0","server":"{x}","app":[{{"appid":"{x}","status":"ok","cohort":"{x}","cohortname":"{x}"}}]}}}}"#), true),
+        1 => (x.clone(), false),                                                              // not JSON at all
+        2 => (format!(r#"{{"response":{{"server":"{x}","app":[]}}}}"#), false),                   // protocol missing
+        3 => (format!(r#"{{"response":{{"protocol":"3.0","server":"{x}","app":"{x}"}}}}"#), false), // app wrongly typed
+        4 => (format!(r#"{{"response":{{"protocol":"3.0","server":"{x}","app":[{{"appid":"{x}"}}]}}}}"#), false), // status missing
+        5 => (format!(r#"{{"response":{{"protocol":"3.0","server":"{x}","app":[{{"appid":"{x}","status":"ok"}}]}}"#), false), // truncated: last brace missing
+        6 => (format!(r#"{{"response":{{"protocol":"3.0","server":"{x}"#), false),              // truncated inside a string
+        _ => (format!(r#"{{"{x}":{{"protocol":"3.0","app":[]}}}}"#), false),                      // wrong top-level key
+    };
+    let mut bytes: Vec<u8> = vec![];
+    if xssi {
+        bytes.extend_from_slice(b")]}'\n");
+    }
+    bytes.extend(std::iter::repeat(b' ').take(pad));
+    bytes.extend_from_slice(body.as_bytes());
+    let mut out = RunOut::new(if accept { "accepted" } else { "rejected" }, true, hash64(&(ch, pad, xssi, reps, shape)));
+    if ctx.want_trace {
+        out.trace = Some(json!({"char": ch, "leading_spaces": pad, "xssi": xssi, "run_length": reps, "shape": shape, "len": bytes.len()}));
+    }
+    let what = format!("shape {shape}, {reps} x U+{:X}, {pad} leading spaces, xssi {xssi}", ch.chars().next().unwrap() as u32);
+    match catch_unwind(|| parse_json_response(&bytes)) {
+        Err(_) => out.fail("parser panics on a document with multi-byte characters", what),
+        Ok(Ok(r)) => {
+            if !accept {
+                return out.fail("malformed multi-byte document accepted", what);
+            }
+            let a = &r.apps[0];
+            if r.server.as_deref() != Some(x.as_str()) || a.id != x || a.cohort.id.as_deref() != Some(x.as_str()) || a.cohort.name.as_deref() != Some(x.as_str()) {
+                return out.fail("multi-byte strings not decoded faithfully", what);
+            }
+            out
+        }
+        Ok(Err(_)) => {
+            if accept {
+                out.fail("well-formed multi-byte document rejected", what)
+            } else {
+                out
+            }
+        }
+    }
+}
+
 fn parts(tier: Tier) -> Vec<PartDef> {
     vec![
         PartDef::new(
@@ -793,6 +852,13 @@ fn parts(tier: Tier) -> Vec<PartDef> {
             Cfg::new("C16/tokens"),
             json!({"tokens": TOKENS, "max_tokens": tier.pick(4, 5), "exploration": "every token string"}),
             move |ctx| run_tokens(ctx, tier),
+        ),
+        PartDef::new(
+            "multibyte-alignment",
+            Cfg::new("C16/multibyte"),
+            json!({"characters": ["U+E9 (2 bytes)", "U+20AC (3 bytes)", "U+1D11E (4 bytes)"], "leading_spaces": "0..3", "xssi_prefix": 2, "run_lengths": [40, 200, tier.pick(700, 3000)],
+                   "shapes": ["accepted", "not JSON", "protocol missing", "app wrongly typed", "status missing", "last brace missing", "cut inside a string", "wrong top-level key"], "exploration": "full product: every byte offset up to the document length is straddled by a character in some case"}),
+            move |ctx| run_multibyte(ctx, tier),
         ),
         PartDef::new(
             "deep-nesting",
